@@ -31,4 +31,22 @@ def simdDiv8 (c a : Nat) : Nat :=
   let comp : Int := ((c * 128 : Nat) : Int)   -- `_mm_slli_epi16::<7>` of the zero-extended component
   min (mulhrs comp recip) 255                 -- `_mm_min_epu16(.., 0xff)`, then packus (a no-op below 256)
 
+/-! ### the 16-bit lane (src/alpha/u16x2/{sse4,avx2}.rs, u16x4/{sse4,avx2}.rs)
+
+    `cvtps_epi32(min_ps(div_ps(mul_ps(c as f32, 65535.0), a as f32), 65535.0) & (a != 0))`, every
+    binary32 operation evaluated exactly with `rnd24` -/
+
+/-- is the non-negative dyadic at least the natural `v` -/
+def dyadicGe (x : Nat × Nat) (v : Nat) : Bool :=
+  if x.2 ≥ bias then decide (x.1 * 2 ^ (x.2 - bias) ≥ v) else decide (x.1 ≥ v * 2 ^ (bias - x.2))
+
+/-- one colour component through the SIMD 16-bit divide: component `c`, alpha `a` -/
+def simdDiv16 (c a : Nat) : Nat :=
+  if a = 0 then 0 else
+  let s := rnd24 (c * 65535) 1                                     -- `_mm_mul_ps`: one rounding
+  let q := if s.2 ≥ bias then rnd24 (s.1 * 2 ^ (s.2 - bias)) a    -- `_mm_div_ps`: one rounding
+           else rnd24 s.1 (a * 2 ^ (bias - s.2))
+  if dyadicGe q 65535 then 65535                                   -- `_mm_min_ps(.., 65535.0)`
+  else cvtpsNonneg q                                               -- `_mm_cvtps_epi32`, then packus (no-op)
+
 end Fir.Simd
